@@ -231,7 +231,7 @@ def validate_trace(trace_module, cfg, trace_file, name=None, timeout=900, extra_
         n_events = sum(1 for _ in open(trace_file))
     except OSError:
         n_events = 0
-    timeout = max(timeout, min(4 * 3600, 600 + n_events // 20))
+    timeout = max(timeout, min(4 * 3600, 3600 + n_events // 20))
     r = run_tlc(trace_module, cfg, workers=1, timeout=timeout, name=name, env=env, deque=True, xmx="4g")
     accepted = r["ok"]
     return accepted, r
